@@ -82,11 +82,12 @@ def run_case(ctx, case: Case, oracles=(), model=None, use_model=True, remount_ev
             check_remount(ctx, case, ir, i, enc)
         # the program closes the filesystem itself with its next op: what pyfatfs reports is taken now, for the comparison with the
         # independent reader of the closed image
-        if ("interop" in oracles or "remount" in oracles) and i + 1 < len(case.ops) and case.ops[i + 1][0] == "closefs" and not handles_open and ir.fs is not None and k != "closefs":
+        if i + 1 < len(case.ops) and case.ops[i + 1][0] == "closefs" and not handles_open and ir.fs is not None and k != "closefs":
             try:
                 state["final_live"] = live_walk(ir)
             except Exception as e:  # noqa
-                ctx.violation(f"{case.label}: walking the live tree raised {type(e).__name__}: {e}", f"live-walk-raises:{type(e).__name__}", case.replay())
+                if "interop" in oracles or "remount" in oracles or "internal" in oracles:
+                    ctx.violation(f"{case.label}: walking the live tree raised {type(e).__name__}: {e}", f"live-walk-raises:{type(e).__name__}", case.replay())
 
     if use_model:
         r = tie.run_program(case.image, case.ops, mount=case.mount, model=model, on_step=on_step)
@@ -97,6 +98,7 @@ def run_case(ctx, case: Case, oracles=(), model=None, use_model=True, remount_ev
     else:
         r = run_impl_only(case, on_step)
     ir = r["impl"]
+    r["final_live"] = state.get("final_live")
     ctx.evaluations += 1
     closed = any(s["op"][0] == "closefs" and s["impl"][0] == "ok" for s in r["steps"])
     if "remount" in oracles and not closed and ir.fs is not None and not handles_open and r["steps"][0]["impl"][0] == "ok":
